@@ -1,6 +1,7 @@
 //! slice(), merge(), scripts, damage and out-of-contract calls.
 
-use crate::exec::{check_edges, clauses, fail, Applied, Exec, Failure};
+use crate::exec::{check_edges, clauses, fail, Applied, Exec, Failure, Op};
+use crate::view::LogOp;
 use crate::model::RefGraph;
 use crate::obs::{guarded, observe, Caught};
 use crate::plan::{Damage, Id, Oob, PLabel, Pred, SCmd, SId, Step};
@@ -102,7 +103,7 @@ impl<const N: usize> Exec<N> {
             self.stats.bump("probe.slice_with_back_edge");
         }
         for seed in &seeds {
-            sodg::verif::collections::set_hash_seed(*seed);
+            sodg::verif::collections::set_hash_seed(*seed ^ self.view.cfg.hash_xor);
             self.stats.bump("slice.hash_seeds_tried");
             let g = self.gs[src].as_ref().unwrap();
             let r = guarded(|| {
@@ -302,11 +303,13 @@ impl<const N: usize> Exec<N> {
         let mut new_ids = Vec::new();
         let mut todo = vec![(left, right)];
         mapping.insert(right, left);
+        let mut flat: Vec<Op> = Vec::new();
         if let Some(d) = &hm.present[&right].data {
             if m.present[&left].unread {
                 self.stats.bump("probe.merge_puts_onto_unread");
             }
             m.put(left, d);
+            flat.push(Op::Put(left, d.clone()));
         }
         while let Some((l, r)) = todo.pop() {
             for (a, to) in &hm.present[&r].edges {
@@ -342,6 +345,8 @@ impl<const N: usize> Exec<N> {
                     m.bind(l, t, a);
                     m.note_returned(t);
                     new_ids.push(t);
+                    flat.push(Op::Add(t));
+                    flat.push(Op::Bind(l, t, a.clone()));
                 }
                 if mapping.values().any(|x| *x == t) {
                     return fail(
@@ -356,6 +361,7 @@ impl<const N: usize> Exec<N> {
                         self.stats.bump("probe.merge_puts_onto_unread");
                     }
                     m.put(t, d);
+                    flat.push(Op::Put(t, d.clone()));
                 }
                 todo.push((t, *to));
             }
@@ -451,6 +457,7 @@ impl<const N: usize> Exec<N> {
             inst.version += 1;
             inst.age += 1;
             inst.merged = true;
+            inst.oplog.extend(flat.iter().map(|op| LogOp { op: op.clone(), add_present: false }));
             self.refresh_hints(*t);
         }
         let mut all = results.clone();
@@ -649,6 +656,38 @@ impl<const N: usize> Exec<N> {
             self.view.set_var(var, id);
             self.stats.bump("script.variable_allocated");
             self.rec(|| format!("script $x={id}"));
+        }
+        {
+            // the script, flattened into the calls it stands for
+            let xid = self.view.vars.get(var).copied().flatten();
+            let mut pl = parsed_labels.iter();
+            let mut flat = Vec::new();
+            for c in cmds {
+                let rs = |sid: &SId| match sid {
+                    SId::P(p) => self.view.resolve(*p),
+                    SId::X => xid,
+                };
+                match c {
+                    SCmd::Add(a) => {
+                        if let Some(v) = rs(a) {
+                            flat.push(Op::Add(v));
+                        }
+                    }
+                    SCmd::Bind(a, b, _) => {
+                        let l = pl.next().unwrap().clone();
+                        if let (Some(a), Some(b)) = (rs(a), rs(b)) {
+                            flat.push(Op::Bind(a, b, l));
+                        }
+                    }
+                    SCmd::Put(a, d) => {
+                        if let Some(v) = rs(a) {
+                            flat.push(Op::Put(v, d.clone()));
+                        }
+                    }
+                }
+            }
+            let inst = self.view.insts[i].as_mut().unwrap();
+            inst.oplog.extend(flat.into_iter().map(|op| LogOp { op, add_present: false }));
         }
         let inst = self.view.insts[i].as_mut().unwrap();
         if obs.keys != m.keys() {
